@@ -33,6 +33,7 @@ import tempfile
 from ..hostile import adversary
 from ..refmodels import c15_ref as ref
 
+PYTHON_O_STRIDE = {"quick": 4, "thorough": 2}      # every n-th case is repeated in an interpreter started with -O
 RULE = ("(graph type, construction, argument tokens, options in application order, token order, save format, "
         "randomness) -- arguments enumerated inside, at and just outside the documented range (gnm N<=6 every m "
         "in -1..C(N,2)+1; gnd every d in -1..N+1; glrm every m in -1..L*R+1 for L,R<=4 (5 thorough); regular/glrd "
